@@ -27,6 +27,7 @@ import (
 	"github.com/bluenviron/gortsplib/v5/pkg/description"
 	"github.com/bluenviron/gortsplib/v5/pkg/format"
 	"github.com/bluenviron/gortsplib/v5/pkg/headers"
+	"github.com/bluenviron/gortsplib/v5/pkg/multicast"
 )
 
 // ---------------------------------------------------------------------------------------------
@@ -340,6 +341,14 @@ func startServer(scn Scn, max int, tap *Tap, h *handler) (*gortsplib.Server, str
 		return &tapListener{Listener: l, tap: tap}, nil
 	}
 	s.ListenPacket = tapListenPacket(tap)
+	if scn.Entity == "mcast" {
+		_, ip, merr := mcastInterface()
+		if merr != nil {
+			return nil, "", merr
+		}
+		s.RTSPAddress = ip + ":0"
+		s.MulticastIPRange = "224.1.0.0/16"
+	}
 	if scn.TLS {
 		cert, err := selfSigned()
 		if err != nil {
@@ -360,7 +369,10 @@ func startServer(scn Scn, max int, tap *Tap, h *handler) (*gortsplib.Server, str
 	}
 	var err error
 	for try := 0; try < 20; try++ {
-		if scn.Proto == "udp" {
+		if scn.Entity == "mcast" {
+			s.MulticastRTPPort = 20000 + 2*int(time.Now().UnixNano()/1000%9000)
+			s.MulticastRTCPPort = s.MulticastRTPPort + 1
+		} else if scn.Proto == "udp" {
 			p, perr := freeUDPPair()
 			if perr != nil {
 				return nil, "", perr
@@ -395,9 +407,16 @@ func newClient(scn Scn, max int, tap *Tap) *gortsplib.Client {
 		ReadTimeout:              3 * time.Second,
 		WriteTimeout:             3 * time.Second,
 	}
+	switch {
+	case scn.Entity == "mcast":
+		c.Protocol = new(gortsplib.ProtocolUDPMulticast)
+	default:
+	}
 	switch scn.Proto {
 	case "udp":
-		c.Protocol = new(gortsplib.ProtocolUDP)
+		if scn.Entity != "mcast" {
+			c.Protocol = new(gortsplib.ProtocolUDP)
+		}
 	case "tcp":
 		c.Protocol = new(gortsplib.ProtocolTCP)
 	}
@@ -432,4 +451,49 @@ func scheme(scn Scn) string {
 		return "rtsps"
 	}
 	return "rtsp"
+}
+
+// mcastInterface returns the first interface able to carry multicast and one of its IPv4 addresses.
+func mcastInterface() (*net.Interface, string, error) {
+	intfs, err := net.Interfaces()
+	if err != nil {
+		return nil, "", err
+	}
+	for i := range intfs {
+		intf := intfs[i]
+		if intf.Flags&net.FlagMulticast == 0 || intf.Flags&net.FlagUp == 0 {
+			continue
+		}
+		addrs, aerr := intf.Addrs()
+		if aerr != nil {
+			continue
+		}
+		for _, a := range addrs {
+			if n, ok := a.(*net.IPNet); ok && n.IP.To4() != nil {
+				return &intf, n.IP.String(), nil
+			}
+		}
+	}
+	return nil, "", fmt.Errorf("no multicast-capable interface")
+}
+
+// mcastReceiver joins a group with the library's own multicast socket and records what arrives.
+func mcastReceiver(tap *Tap, intf *net.Interface, addr string, port int) (func(), error) {
+	pc, err := multicast.NewSingleConn(intf, addr, net.ListenPacket)
+	if err != nil {
+		return nil, err
+	}
+	done := make(chan struct{})
+	go func() {
+		defer close(done)
+		buf := make([]byte, 8192)
+		for {
+			n, _, rerr := pc.ReadFrom(buf)
+			if rerr != nil {
+				return
+			}
+			tap.add(Event{Kind: "udp", Chan: port, Declared: n, Written: n, Head: head(buf[:n])})
+		}
+	}()
+	return func() { pc.Close(); <-done }, nil
 }
